@@ -96,7 +96,7 @@ class Gen:
     def fresh_rail(self, m):
         # sometimes re-use a rail name that an earlier edit dropped
         pool = [r for r in self.freed_rails if m is None or r not in m.used_names()]
-        if pool and self.r.chance(0.3):
+        if pool and self.r.chance(0.5):
             r = self.r.pick(pool)
             self.freed_rails.remove(r)
             return r
@@ -334,7 +334,7 @@ class Gen:
             g = self.eng(-4, -3) * si
             if self.r.chance(0.6):
                 p["ig"] = self.maybe_table("ig", self.neg(g), 0.5 * g, 2 * g, a, 0.2 * si)
-            if self.r.chance(0.4):
+            if self.r.chance(0.6 if kind == "PMux" else 0.4):
                 p["iis"] = self.neg(self.eng(-4, -4) * si)
         elif kind == "Rectifier":
             if self.r.chance(0.5):
